@@ -518,8 +518,13 @@ def dfa_symmetric_difference(D1: DFA, D2: DFA) -> DFA:
     return dfa_product(D1, D2, 'symmetric_difference')
 
 
+def dfa_fresh_epsilon(D: DFA) -> Symbol:
+    """Returns an epsilon symbol for an NFA that is derived from D: ε, unless that is an input symbol of D."""
+    return next(epsilon for epsilon in [Symbol('ε'), Symbol('_'), Symbol('')] if epsilon not in D.Sigma)
+
+
 def dfa_reverse(D: DFA) -> NFA:
-    epsilon = Symbol('ε')
+    epsilon = dfa_fresh_epsilon(D)
 
     q0 = fresh_state(D.Q, 'q')
     Q = D.Q.copy() | {q0}
@@ -534,7 +539,7 @@ def dfa_reverse(D: DFA) -> NFA:
 
 
 def dfa_no_prefix(D: DFA) -> NFA:
-    epsilon = Symbol('ε')
+    epsilon = dfa_fresh_epsilon(D)
 
     Q = D.Q.copy()
     Sigma = D.Sigma.copy()
